@@ -233,6 +233,29 @@ func c18(x *mon.Ctx) {
 			w.Resign()
 			add(w, world.LColl, "verify-fault", "c03/"+sr.name, goodPolicy(), true, false)
 		}
+		// revocation checking asked for, but a CRL cannot be had: verification fails, so no state — whatever else is wrong or right
+		for name, mod := range map[string]func(w *world.World){
+			"pck-crl-endpoint-error":  func(w *world.World) { w.Extra[world.PckCrlURL("platform")] = world.Resp{Err: "timeout"} },
+			"root-crl-endpoint-error": func(w *world.World) { w.Extra[world.RootCRLURL] = world.Resp{Err: "timeout"} },
+			"both-crl-endpoints-error": func(w *world.World) {
+				w.Extra[world.PckCrlURL("platform")] = world.Resp{Err: "timeout"}
+				w.Extra[world.RootCRLURL] = world.Resp{Err: "connection refused"}
+			},
+			"pck-crl-garbage": func(w *world.World) {
+				w.Extra[world.PckCrlURL("platform")] = world.Resp{H: w.CrlHdr, B: []byte("not a CRL")}
+			},
+			"root-crl-garbage": func(w *world.World) { w.Extra[world.RootCRLURL] = world.Resp{B: []byte{0x30, 0x03, 1, 2, 3}} },
+		} {
+			w := base.Clone()
+			mod(w)
+			add(w, world.LCrl, "verify-fault", "c05/"+name, goodPolicy(), true, false)
+			w2 := w.Clone()
+			w2.Q.SignQE(world.NewKey())
+			add(w2, world.LCrl, "verify-fault", "c05/"+name+"+forged-qe-signature", goodPolicy(), true, false)
+			w3 := w.Clone()
+			w3.Q.Body[136] ^= 1 // MR_TD edited, body signature not redone
+			add(w3, world.LCrl, "verify-fault", "c05/"+name+"+edited-body", ref.Policy{}, true, false)
+		}
 		// ---- policy gate
 		for _, name := range exactNames {
 			for _, kind := range []string{"first-differs", "last-differs", "one-short"} {
@@ -425,7 +448,7 @@ func c18(x *mon.Ctx) {
 	x.Require("twin", 3, 0, 3)
 	x.Require("extended-log/twin", 3, 0, 3)
 	x.Require("extended-log/rtmr3-bitflip", 0, 3*48, 3*48)
-	x.Require("verify-fault", 0, 60, 60)
+	x.Require("verify-fault", 0, 75, 75)
 	x.Require("policy-mismatch", 0, 30, 30)
 	for i := 0; i < 4; i++ {
 		if measured[i] {
